@@ -57,6 +57,17 @@ def alphabet():
     return A
 
 
+def extra_creators():
+    """creating letters outside the exhaustive alphabet (they would double it): the other object types that have a state"""
+    def reg(otype, **kw):
+        obj = dict({"otype": otype, "value": "0102", "alg": None, "len": None, "format": None, "subtype": None}, **kw)
+        return {"op": "register", "bid": None, "crypto": None, "otype": otype,
+                "tmpl": {"tnames": 0, "attrs": [{"name": "Cryptographic Usage Mask", "index": None, "value": {"k": "int", "v": 0xFFFFFF}}]},
+                "obj": obj}
+    return [reg(1, value="3003020101", subtype=1), reg(7, subtype=1), reg(5, value="00" * 16, alg=3, len=128, format=1),
+            reg(3, alg=4, len=2048, format=3), reg(4, alg=4, len=2048, format=4)]
+
+
 def exhaustive_builder(g, E, do, depth):
     """all sequences over the alphabet to `depth`, each on a fresh store (one worker = one first letter)"""
     import itertools
@@ -86,9 +97,9 @@ def state_matrix_builder(g, E, do, depth):
     Activate / Revoke steps (plus Deactivated -> Compromised), then every letter addressing that object"""
     import itertools
     A = alphabet()
-    first = A[g.profile["first"]]
+    first = extra_creators()[g.profile["first_extra"]] if "first_extra" in g.profile else A[g.profile["first"]]
     k = 0
-    for u in ("1", "2"):
+    for u in ("1", "2") if "first_extra" not in g.profile else ("1",):
         steps = [a for a in A if a["op"] in ("activate", "revoke") and a.get("uid") == u]
         finals = [a for a in A if a.get("uid") == u or (a["op"] == "deriveKey" and a.get("uids") == [u])
                   or (a["op"] == "get" and (a.get("wrap") or {}).get("enckey") == u)]
@@ -230,6 +241,8 @@ def run(ctx):
                   "props.c04.exhaustive_builder") for i in creators for p in range(nparts)]
     args += [(1000 + i, depth, {"first": i, "builtin_policies_only": True}, True, "props.c04.state_matrix_builder")
              for i in creators]
+    args += [(1500 + i, depth, {"first_extra": i, "builtin_policies_only": True}, True, "props.c04.state_matrix_builder")
+             for i in range(len(extra_creators()))]
     args += [(2000, depth, {"builtin_policies_only": True}, True, "props.c04.use_retire_use_builder")]
     with multiprocessing.get_context("fork").Pool(min(16, len(args))) as pool:
         exh = pool.map(engine_check.gen_history, args)
